@@ -112,10 +112,36 @@ def pushView (fl : Flags) (objs : List Obj) (p : Nat) (po : Obj) (rows : List Na
   -- `_share_memory_with`: rows.add_dependency(self); self.add_dependency(rows)
   if fl.viewsLinked then addVDep (addVDep objs n p) p n else objs
 
+/-- `pushView` and, when the new rows carry an attached object `oth`, their registration as its dependent
+(`__setattr__` → `oth.add_dependency(rows)`) -/
+def pushViewOth (fl : Flags) (objs : List Obj) (p : Nat) (po : Obj) (rows : List Nat) : Option Nat → List Obj
+  | none => pushView fl objs p po rows none
+  | some t => addODep (pushView fl objs p po rows (some t)) t objs.length
+
+/-- `p[a:b]` for an object with an attachment chain of any depth (`PositionArray.__getitem__`: "the attributes follow the
+same index" — `other[item]` is taken first, by the same method, so the other of the other follows as well; the same for
+the `ref_pos` of a delta and its own `other`).  Innermost first: the views of the attached objects are pushed before the
+view of `p`, which is attached to (and registered with) the view of its own attached object.  Returns the new object list
+and the id of the view of `p`; `none` when an attached id is dangling or the chain does not end within `fuel` objects
+(a cyclic attachment: the real code recurses until `RecursionError`). -/
+def pushChain (fl : Flags) (rows : List Nat) : (fuel : Nat) → (objs : List Obj) → (p : Nat) → Option (List Obj × Nat)
+  | 0, _, _ => none
+  | fuel + 1, objs, p =>
+    match objs[p]? with
+    | none => none
+    | some po =>
+      match po.other with
+      | none => some (pushViewOth fl objs p po rows none, objs.length)
+      | some q =>
+        match pushChain fl rows fuel objs q with
+        | none => none
+        | some (objs1, nq) => some (pushViewOth fl objs1 p po rows (some nq), objs1.length)
+
 inductive Op
   /-- a new array with its own memory -/
   | create (vals : List Val)
-  /-- `p[i]`, `p[a:b]`: a view of the chosen rows (positions into `p`'s own rows) -/
+  /-- `p[i]`, `p[a:b]`: a view of the chosen rows (positions into `p`'s own rows), with the same rows of every object
+  along its attachment chain -/
   | view (p : Nat) (rows : List Nat)
   /-- `p[mask]`, `p[[...]]`: a copy of the chosen rows -/
   | take (p : Nat) (rows : List Nat)
@@ -140,21 +166,11 @@ def step (fl : Flags) (s : State) : Op → State × Out
   | .create vals =>
     ({ mems := s.mems ++ [vals], objs := s.objs ++ [{ mem := s.mems.length, idx := List.range vals.length }] }, .done)
   | .view p rows =>
-    match s.objs[p]? with
+    -- the attribute follows the same index: `other[item]` is a view of the other (and so on along the chain), and the
+    -- new rows are registered as depending on it; a chain without a cycle has at most `objs.length` members
+    match pushChain fl rows (s.objs.length + 1) s.objs p with
     | none => (s, .bad)
-    | some po =>
-      match po.other with
-      | none => ({ s with objs := pushView fl s.objs p po rows none }, .done)
-      | some q =>
-        match s.objs[q]? with
-        | none => (s, .bad)
-        | some qo =>
-          -- the attribute follows the same index: `other[item]` is a view of the other, and the new rows
-          -- are registered as depending on it
-          let n := s.objs.length
-          let objs := pushView fl s.objs q qo rows none
-          let objs := pushView fl objs p po rows (some n)
-          ({ s with objs := addODep objs n (n + 1) }, .done)
+    | some (objs, _) => ({ s with objs := objs }, .done)
   | .take p rows =>
     match s.objs[p]? with
     | none => (s, .bad)
